@@ -549,6 +549,20 @@ def sorted_after(b, fl, collect_term, site):
                 ds = [fmt_desc(cf.describe(a, depth=6)) for a in cmps[0].args]
                 if site.container[0] == "HashSet" or all(d.endswith(".0") for d in ds):
                     return "%s comparing the %s's own keys (unique, hence a total order)" % (last, site.container[0])
+    # sort by a key function: total if the key is the unique key itself (the `.0` of a HashMap pair, a HashSet element)
+    if site.container[0] in ("HashMap", "HashSet") and last in ("sort_by_key", "sort_unstable_by_key", "sort_by_cached_key"):
+        cp = _closure_arg(fl, st)
+        if cp:
+            cb = fl.prog.bodies[cp]
+            from flow import Flows, fmt_desc
+
+            cf = Flows(fl.prog).of(cb)
+            defs = cb.assigns_to(0)
+            if len(defs) == 1 and getattr(defs[0][1], "rv", None) is not None and defs[0][1].rv.ops:
+                d0 = fmt_desc(cf.describe(defs[0][1].rv.ops[0], depth=6))
+                no_calls = not any(t.callee and t.callee.short.split("::")[-1] not in ("clone", "deref", "borrow", "as_ref") for t in cb.calls())
+                if no_calls and (site.container[0] == "HashSet" or d0.endswith(".0")):
+                    return "%s keyed by the %s's own keys (unique, hence a total order)" % (last, site.container[0])
     return None
 
 
